@@ -352,6 +352,20 @@ def seeded_for(prop):
     return out
 
 
+TWINS = os.path.join(os.path.dirname(SEEDED), "twins")
+
+
+def twins():
+    """Stored behaviour-preserving refactorings (verified by tools/verify_twins.py: test suite at baseline): must stay silent."""
+    out = []
+    if os.path.isdir(TWINS):
+        for name in sorted(os.listdir(TWINS)):
+            pp = os.path.join(TWINS, name, "patch.diff")
+            if os.path.exists(pp):
+                out.append((name, pp))
+    return out
+
+
 _ANALYSE = None
 
 
@@ -367,6 +381,13 @@ def _job(args):
                 return (kind, sid, "skip", [], [])
             viol, errs = _ANALYSE(prop, d)
             return (kind, sid, "ok", viol, errs)
+        if kind == "twin":
+            name, patch = a, b
+            r = subprocess.run(["patch", "-p1", "-s", "-d", d, "-i", patch], capture_output=True, text=True)
+            if r.returncode != 0:
+                return (kind, name, "skip", [], [])
+            viol, errs = _ANALYSE(prop, d)
+            return (kind, name, "ok", viol, errs)
         label, idx = a, b
         try:
             rewrite_tree(d, NEUTRAL[idx][1])
@@ -385,11 +406,12 @@ def run(prop, root, analyse):
     import multiprocessing
     from concurrent.futures import ProcessPoolExecutor
     _ANALYSE = analyse
-    report = {"seeded": [], "neutral": []}
+    report = {"seeded": [], "neutral": [], "twins": []}
     problems = []
     seeds = seeded_for(prop)
     meta_of = {sid: meta for sid, patch, meta in seeds}
-    jobs = [("seeded", prop, root, sid, patch) for sid, patch, meta in seeds] + [("neutral", prop, root, label, i) for i, (label, tr) in enumerate(NEUTRAL)]
+    jobs = [("seeded", prop, root, sid, patch) for sid, patch, meta in seeds] + [("neutral", prop, root, label, i) for i, (label, tr) in enumerate(NEUTRAL)] \
+        + [("twin", prop, root, name, patch) for name, patch in twins()]
     workers = max(1, min(int(os.environ.get("SA_JOBS", "0")) or (os.cpu_count() or 4), 16, len(jobs)))
     try:
         ctxmp = multiprocessing.get_context("fork")
@@ -406,6 +428,13 @@ def run(prop, root, analyse):
             report["seeded"].append({"id": ident, "fired": fired, "first": viol[0] if viol else None})
             if not fired:
                 problems.append("seeded variant %s (%s) is not detected" % (ident, meta_of[ident].get("summary", "")[:80]))
+        elif kind == "twin":
+            if status == "skip":
+                report["twins"].append({"twin": ident, "result": "patch does not apply to this tree (skipped)"})
+                continue
+            report["twins"].append({"twin": ident, "silent": not viol and not errs, "alarms": viol[:2], "errors": errs[:2]})
+            if viol or errs:
+                problems.append("behaviour-preserving refactoring '%s' raises an alarm: %s" % (ident, (viol + errs)[0][:300]))
         else:
             if status == "syntax":
                 problems.append("neutral variant '%s' does not compile: %s" % (ident, viol[0]))
